@@ -43,7 +43,7 @@ class C07Engine(Engine):
                        'generated classes of all versions side by side', 'stone_serializers / validators / base']
     stub_components = ['transport (in-flight queue), durable store, node lifecycle (upgrade, rollback)',
                        'view function computed from the spec models and the edit log']
-    assumptions = ['annotations and nullable aliases are not generated in fleet specs',
+    assumptions = ['annotations are not generated in fleet specs',
                    're-encoding by an old node of a value it decoded leniently is not judged',
                    'a tag changed from Void to a non-nullable type, read by the newer side, is unspecified']
     expected_probes = ['older_reader_lenient', 'older_reader_strict_reject', 'older_reader_strict_accept',
